@@ -91,6 +91,17 @@ Proof.
   intros cs rl hs rs sc D st0 H1 H2 H3 H4 H5 H6 D1 D' f1 tr1 s1 f2 tr2 s2 H7 H8.
   exact (mixed_survives_pause cs rl hs rs sc D st0 H1 H2 H3 H4 H5 H6 D1 D' f1 tr1 s1 f2 tr2 s2 H7 H8).
 Qed.
+(* ... and the concatenated solved times of the paused run and of its continuation strictly increase: no time is revisited *)
+Theorem C10_controls_and_rules_times_increase : forall cs rl hs rs sc D st0, 0 < rs -> 0 < hs -> (forall x, In x cs -> 0 < x_thr x) ->
+  (forall x, In x rl -> 0 < x_thr x) -> StronglySorted R_id cs -> StronglySorted R_id rl ->
+  forall D1 D' f1 tr1 s1 f2 tr2 s2,
+  steps f1 (gm cs rl hs rs sc D st0) D1 (init_state (gm cs rl hs rs sc D st0)) = Some (tr1, s1) ->
+  steps f2 (gm cs rl hs rs sc D st0) D' (restart_state (gm cs rl hs rs sc D st0) s1) = Some (tr2, s2) ->
+  StronglySorted Z.lt (map fst (tr1 ++ tr2)).
+Proof.
+  intros cs rl hs rs sc D st0 H1 H2 H3 H4 H5 H6 D1 D' f1 tr1 s1 f2 tr2 s2 H7 H8.
+  exact (mixed_pause_times_increasing cs rl hs rs sc D st0 H1 H2 H3 H4 H5 H6 D1 D' f1 tr1 s1 f2 tr2 s2 H7 H8).
+Qed.
 Theorem C10_fuel_irrelevant : forall g D f k s r, steps f g D s = Some r -> steps (f + k) g D s = Some r.
 Proof. exact steps_fuel_mono. Qed.
 Print Assumptions C10_pause_continue.
@@ -101,4 +112,5 @@ Print Assumptions C10_window_survives_pause.
 Print Assumptions C10_control_set_survives_pause.
 Print Assumptions C10_all_time_controls_survive_pause.
 Print Assumptions C10_controls_and_rules_survive_pause.
+Print Assumptions C10_controls_and_rules_times_increase.
 Print Assumptions C10_restart_equiv_sim_time_controls.
